@@ -1066,6 +1066,16 @@ impl<'de> serde::de::Visitor<'de> for ParsedValueSeed<'_> {
         }
         let ranges = Ranges::from_serde_seq(map, self)?;
 
+        // only a type and no ranges, e.g. `["u8"]`
+        let mut is_empty = true;
+        let _ = ranges.try_for_each_value::<_, ()>(|_| {
+            is_empty = false;
+            Ok(())
+        });
+        if is_empty {
+            return Err(serde::de::Error::custom(Error::EmptyRange));
+        }
+
         let (invalid_fallback, fallback_count, should_have_fallback) =
             ranges.check_deserialization();
 
